@@ -3,6 +3,7 @@
 mod gens;
 mod stat;
 mod util;
+mod warm;
 mod world;
 
 use util::*;
@@ -51,6 +52,25 @@ fn main() {
             let t = std::time::Instant::now();
             sentinel_core::utils::sleep_for_ms(a.num("ms", 20));
             println!("took_us={}", t.elapsed().as_micros());
+        }
+        "warm-replay" => {
+            let mut out = Out::create(a.get("out"));
+            let mut w = world::World::new();
+            for b in read_behaviours(a.get("in")) {
+                out.put_all(&w.exec(&warm::expand_profile(&b)));
+            }
+            println!("events={}", out.lines);
+            out.finish();
+        }
+        "warm-drive" => {
+            let mut rng = rng(a.num("seed", 1));
+            let mut out = Out::create(a.get("out"));
+            let mut w = world::World::new();
+            for _ in 0..a.num("hist", 6) {
+                out.put_all(&w.exec(&warm::random_history(&mut rng, a.num("small", 1) == 1)));
+            }
+            println!("events={}", out.lines);
+            out.finish();
         }
         "world-replay" => {
             let mut out = Out::create(a.get("out"));
